@@ -1,12 +1,12 @@
 #!/usr/bin/env bash
 # tools/mutant_run.sh <repo_worktree_dir> <Cxx> [tier] [extra args…]
 # Builds the harness against a *scratch copy/worktree* of the repository (never /repo) and runs
-# one check there. Everything (target dir, evidence, replays) stays inside <dir>/.verif_scratch,
-# so removing the worktree removes it all.  VERIF_SCALE=<percent> scales the amount of work.
+# one check there. Everything (target dir, evidence, replays) stays inside the sibling directory <dir>.verif,
+# remove it together with the worktree: rm -rf <dir>.verif  VERIF_SCALE=<percent> scales the amount of work.
 set -eu
 WT="$(cd "$1" && pwd)"; PROP="$2"; TIER="${3:-quick}"; shift; shift; [ $# -gt 0 ] && shift
 ROOT="$(cd "$(dirname "${BASH_SOURCE[0]}")/.." && pwd)"
-SCR="$WT/.verif_scratch"; H="$SCR/harness"
+SCR="${WT}.verif"; H="$SCR/harness"
 mkdir -p "$H/.cargo" "$SCR/root/evidence" "$SCR/root/replays"
 sed "s#path = \"/repo\"#path = \"$WT\"#" "$ROOT/harness/Cargo.toml" > "$H/Cargo.toml"
 cp "$ROOT/harness/Cargo.lock" "$H/Cargo.lock"
